@@ -789,6 +789,8 @@ def _j_rescon(el, p, j):
     if el.startswith("ResourcePeriodically") and p.get("period", 5) < 1:
         j.open.append("period_unusual")
     if n == 0:
+        if "empty_interval_list" in j.open:
+            return  # a constraint over no interval at all: degenerate, the statement does not decide it
         j.viol.append((rule, True))
         return
     if el == "ResourceTasksDistance":
